@@ -20,7 +20,13 @@ Dists(left, maxLen, run) ==
                 : v \in {x \in Vals : Weight(x) <= left /\ (x # 0 \/ (maxLen > 1 /\ run < MaxZeroRun))}}
 Cases == {d \in Dists(Pow2(AL), MaxLen, 0) : d # <<>> /\ d[Len(d)] # 0}
 
-Row(d) == [al |-> AL, probs |-> d, bytes |-> DescBytes(AL, d),
+\* a reader configured for at most maxLog bits of accuracy and symbols 0..maxSym accepts a description exactly when it
+\* stays within both (RFC 8878 3.1.1.3.2.1: the limits differ per field); the cases carry the four limit pairs around theirs
+Accepts(al, d, maxLog, maxSym) == al <= maxLog /\ Len(d) <= maxSym + 1
+LimitsOf(d) == LET n == Len(d)
+                   pairs == {<<AL, n - 1>>, <<9, 255>>} \cup (IF AL > 5 THEN {<<AL - 1, n - 1>>} ELSE {}) \cup (IF n >= 2 THEN {<<AL, n - 2>>} ELSE {})
+               IN SetToSeq({[maxlog |-> p[1], maxsym |-> p[2], accept |-> Accepts(AL, d, p[1], p[2])] : p \in pairs})
+Row(d) == [al |-> AL, probs |-> d, bytes |-> DescBytes(AL, d), limits |-> LimitsOf(d),
            table |-> LET t == Table(AL, d) IN [st \in 1..Size(AL) |-> <<t[st - 1].sym, t[st - 1].nb, t[st - 1].bl>>]]
 Theorems(d) == /\ Normalised(AL, d)
                /\ LET r == ReadDesc(DescBytes(AL, d) \o <<0>>) IN r.al = AL /\ r.probs = d /\ r.used = Len(DescBytes(AL, d))
